@@ -1,0 +1,6 @@
+//go:build !verif
+
+package bigbuff
+
+// verifAt is a verification hook point; it is a no-op unless built with the "verif" build tag.
+func verifAt(pt string, obj any, n int) {}
